@@ -30,7 +30,10 @@ RULE = ("A: category lists of 0..3 distinct types from 8 x word lengths "
         "{0,1,2,3,4,5,9} x read size 4/8 x busy polls <= 2 per polling loop "
         "(deviation-bounded); B: all sync-manager sequences (<= 4 entries, 4 "
         "modes) and all PDO category shapes (1..2 PDOs x 0..3 entries of 8 "
-        "kinds, second PDO assigned or not); C: complete images through "
+        "kinds, second PDO assigned or not; plus gaps of {1,4,8,12,13,16} "
+        "bits at bit positions {0,3,4} and 3/4-bit fields: 15 kinds for "
+        "pairs of <= 2 entries and single PDOs of 3, and prefix x gap x "
+        "suffix PDOs); C: complete images through "
         "apply_eeprom + parse_pdos from EEPROM and from SDO; non-trivial = "
         "at least one category / sync manager / mapped entry; distinct = "
         "distinct (shape, choices)")
@@ -216,6 +219,12 @@ def work_sm(item, res):
 
 # entry kinds of a PDO: (name, index != 0, bits or None = pad to alignment)
 KINDS = ["b1", "b2", "pad", "pad1", "u8", "u16", "u32", "u64"]
+# gaps (index 0) of 1..16 bits that do or do not realign to a byte boundary,
+# and bit fields that put them at bit positions 3 and 4
+GAPS = ["pad1", "pad4", "pad8", "pad12", "pad13", "pad16"]
+KINDS_X = KINDS + ["b3", "b4"] + [g for g in GAPS if g not in KINDS]
+GAP_PREFIX = [(), ("b3",), ("b4",), ("b1", "b2"), ("pad4",)]
+GAP_SUFFIX = [(), ("b1",), ("u8",), ("u16",)]
 
 
 def build_pdos(shape, base, sm, unassigned):
@@ -226,15 +235,11 @@ def build_pdos(shape, base, sm, unassigned):
         free = unassigned and p == len(shape) - 1 and p > 0
         for j, kind in enumerate(kinds):
             index, sub = base + 0x10 * p, j + 1
-            if kind == "b1":
-                bits = 1
-            elif kind == "b2":
-                bits = 2
-            elif kind == "pad":
+            if kind == "pad":       # gap up to the next byte boundary
                 index, sub, bits = 0, 0, (-pos) % 8 or 8
-            elif kind == "pad1":
-                index, sub, bits = 0, 0, 1
-            else:
+            elif kind.startswith("pad"):
+                index, sub, bits = 0, 0, int(kind[3:])
+            else:                   # bN: bit field, uN: N-bit number
                 bits = int(kind[1:])
             entries.append(coe.PdoEntry(index, sub, bits, j, 0, 0))
             pos += bits
@@ -500,9 +505,17 @@ def shapes_read(maxcats):
                 yield tuple(zip(types, words))
 
 
-def pdo_shapes(max_entries, max_pdos):
+def gap_shapes():
+    """one PDO: bit position {0, 3, 4} x gap width x what follows"""
+    for pre in GAP_PREFIX:
+        for gap in GAPS:
+            for suf in GAP_SUFFIX:
+                yield (pre + (gap,) + suf,)
+
+
+def pdo_shapes(max_entries, max_pdos, kinds=KINDS):
     one = [s for n in range(max_entries + 1)
-           for s in itertools.product(KINDS, repeat=n)]
+           for s in itertools.product(kinds, repeat=n)]
     for s in one:
         yield (s,)
     if max_pdos >= 2:
@@ -538,15 +551,28 @@ def items(ctx):
     for k in range(5):
         for seq in itertools.product(MODES, repeat=k):
             out.append(("sm", seq, seed))
-    for shape in pdo_shapes(2 if ctx.quick else 3, 2):
+    shapes = list(pdo_shapes(2 if ctx.quick else 3, 2))
+    have = set(shapes)
+    # the wider alphabet (more gap widths, 3/4-bit fields): pairs of PDOs
+    # with <= 2 entries, single PDOs with 3, and the gap family
+    for more in (pdo_shapes(2, 2, KINDS_X), pdo_shapes(3, 1, KINDS_X),
+                 gap_shapes()):
+        for shape in more:
+            if shape not in have:
+                have.add(shape)
+                shapes.append(shape)
+    for shape in shapes:
         out.append(("pdo", shape, False, seed))
         if len(shape) == 2:
             out.append(("pdo", shape, True, seed))
     # ---- C
     m = 0
-    for shape in pdo_shapes(2, 2 if not ctx.quick else 1):
-        if len(shape) == 2 and (len(shape[0]) + len(shape[1])) > 3:
-            continue
+    chain = [sh for sh in pdo_shapes(2, 2 if not ctx.quick else 1)
+             if not (len(sh) == 2 and len(sh[0]) + len(sh[1]) > 3)]
+    chain += [sh for sh in gap_shapes()
+              if ctx.quick is False or sh[0][-1] in ("u8",) or
+              sh[0][-1].startswith("pad")]
+    for shape in chain:
         for mailbox in (False, True):
             for unassigned in ((False, True) if len(shape) == 2
                                else (False,)):
